@@ -44,7 +44,19 @@ type Violation struct {
 	// that were running concurrently.
 	ConcurrentOnly bool              `json:"concurrent_only,omitempty"`
 	Noise          []json.RawMessage `json:"noise,omitempty"`
+	// FromInitialState: the point was explored directly after the library's hidden package-level state had been put back
+	// to what it is in a fresh process (LibReset); the replay does the same.
+	FromInitialState bool `json:"from_initial_state,omitempty"`
 }
+
+// LibReset, when the check was built with the hooks of tools/ovgen (build tag verif), puts the hidden package-level state
+// of the library under test (everything but its exported configuration variables and error values) back to its initial
+// value. In the first pass (serial history phases only) every probe execution starts with it, so that every explored
+// history is a history of a fresh process: state the library builds on first use cannot hide behind earlier calls.
+var LibReset func()
+
+// LibResetPackage: the same per library package (date, roman, sem, size, uu, test).
+var LibResetPackage map[string]func()
 
 // KnownFinding identifies a recorded genuine defect by probe, kind and a
 // regular expression over the compact JSON of the probe argument.
@@ -109,7 +121,7 @@ type Run struct {
 }
 
 type replayer interface {
-	replay(arg json.RawMessage) (kind, detail string, err error)
+	replay(arg json.RawMessage, fromInitialState bool) (kind, detail string, err error)
 	stress(arg json.RawMessage, noise []json.RawMessage, goroutines, iterations int) (kind, detail string, err error)
 }
 
@@ -121,6 +133,7 @@ type W struct {
 	nontrivial int64
 	outcomes   map[string]int64
 	dry        bool
+	serial     bool // the worker of Run.Serial: the only goroutine calling the library
 	tick       int
 }
 
@@ -174,6 +187,9 @@ func (r *Run) Sample(class string, v any) {
 	r.sampleSeen[class]++
 	r.samples = append(r.samples, map[string]any{"class": class, "case": v})
 }
+
+// FirstPass reports whether the body is being run for the first time (serial history phases only, see Main).
+func (r *Run) FirstPass() bool { return r.firstPass }
 
 // Assume records an assumption / trusted-base statement for the evidence file.
 func (r *Run) Assume(s string) {
@@ -264,11 +280,14 @@ type Probe[A any] struct {
 	name  string
 	setup func(A)
 	fn    func(A) (kind, detail string)
+	// SelfReset: the probe puts the library back to its initial state itself (Do and replay do not do it in front of it).
+	SelfReset bool
 }
 
 // NewProbe registers a probe. setup (may be nil) installs the configuration
 // (package globals) that the argument names; enumerators install it once
 // per phase, the replay path installs it before the single call.
+// (A probe with SelfReset set resets the library itself; see Probe.Do.)
 func NewProbe[A any](r *Run, name string, setup func(A), fn func(A) (kind, detail string)) *Probe[A] {
 	p := &Probe[A]{r: r, name: name, setup: setup, fn: fn}
 	r.probes[name] = p
@@ -296,6 +315,10 @@ func trimStack(b []byte) string {
 // Do executes the probe on one point from a worker.
 func (p *Probe[A]) Do(w *W, a A) bool {
 	w.calls++
+	initial := p.r.firstPass && w.serial && LibReset != nil
+	if initial && !p.SelfReset {
+		LibReset()
+	}
 	kind, detail := p.call(a)
 	if kind == "" {
 		return true
@@ -312,14 +335,17 @@ func (p *Probe[A]) Do(w *W, a A) bool {
 		p.r.Infra("cannot marshal probe argument of %s: %v", p.name, err)
 		return false
 	}
-	p.r.record(&Violation{Probe: p.name, Kind: kind, Arg: arg, Detail: detail})
+	p.r.record(&Violation{Probe: p.name, Kind: kind, Arg: arg, Detail: detail, FromInitialState: initial})
 	return false
 }
 
-func (p *Probe[A]) replay(arg json.RawMessage) (string, string, error) {
+func (p *Probe[A]) replay(arg json.RawMessage, fromInitialState bool) (string, string, error) {
 	var a A
 	if err := json.Unmarshal(arg, &a); err != nil {
 		return "", "", err
+	}
+	if fromInitialState && LibReset != nil && !p.SelfReset {
+		LibReset()
 	}
 	if p.setup != nil {
 		p.setup(a)
@@ -485,7 +511,7 @@ func (r *Run) doReplay(path string) int {
 		fmt.Fprintf(os.Stderr, "unknown probe %q\n", v.Probe)
 		return 2
 	}
-	kind, detail, err := p.replay(v.Arg)
+	kind, detail, err := p.replay(v.Arg, v.FromInitialState)
 	if err == nil && kind == "" && v.ConcurrentOnly {
 		for attempt := 0; attempt < 5 && kind == "" && err == nil; attempt++ {
 			kind, detail, err = p.stress(v.Arg, v.Noise, 16, 4000)
@@ -520,7 +546,7 @@ func (r *Run) finish() int {
 		p := r.probes[v.Probe]
 		stable := true
 		for i := 0; i < 5; i++ {
-			k, _, err := p.replay(v.Arg)
+			k, _, err := p.replay(v.Arg, v.FromInitialState)
 			if err != nil || k != v.Kind {
 				stable = false
 				r.Infra("violation of probe %s kind %s arg %s did not reproduce on re-execution %d (got %q, err %v): harness nondeterminism, no verdict",
